@@ -204,6 +204,12 @@ struct SharedPage {
     case_index: std::sync::atomic::AtomicU64,
     /// number of cases finished by this child
     done: std::sync::atomic::AtomicU64,
+    /// counters of the current child (survive its death)
+    executions: std::sync::atomic::AtomicU64,
+    nontrivial: std::sync::atomic::AtomicU64,
+    ok: std::sync::atomic::AtomicU64,
+    err: std::sync::atomic::AtomicU64,
+    capped: std::sync::atomic::AtomicU64,
     desc_len: std::sync::atomic::AtomicU64,
     desc: [u8; 3000],
 }
@@ -214,18 +220,6 @@ fn map_shared() -> *mut SharedPage {
     };
     assert!(p != libc::MAP_FAILED);
     p as *mut SharedPage
-}
-
-#[derive(Default, Serialize, Deserialize)]
-struct PartReport {
-    executions: u64,
-    nontrivial: u64,
-    outcomes: BTreeMap<String, u64>,
-    case_hashes: Vec<u64>,
-    /// (clause, class) -> (count, up to 3 witnesses with detail)
-    violations: BTreeMap<String, (u64, Vec<(Value, String)>)>,
-    capped: bool,
-    samples: Vec<Value>,
 }
 
 fn witness_of(c: &Case) -> Value {
@@ -254,24 +248,25 @@ fn judge<S: MutSpec>(spec: &S, c: &Case) -> Result<bool, Fail> {
 }
 
 impl<S: MutSpec> Mut<S> {
-    /// Child side: run cases [start..) of this shard, checkpointing the part report.
+    /// Child side: run cases [start..) of this shard.  Nothing a child found may be lost when it dies on a
+    /// later case: counters live in the shared page, every violation is appended to `<part>.viol` at once,
+    /// case hashes are appended to `<part>.hashes` in small chunks.
     fn child_run(&self, ctx: &Ctx, page: *mut SharedPage, start: u64, part_path: &std::path::Path) {
+        use std::io::Write;
         use std::sync::atomic::Ordering::SeqCst;
         let name = self.0.name();
         let nshards = ctx.args.nshards as u64;
         let shard = ctx.args.shard as u64;
         let offset = h64(&name) % nshards;
-        let mut rep = PartReport::default();
         let mut global_idx: u64 = 0;
         let mut my_idx: u64 = 0;
         let deadline = ctx.deadline;
         let empty_answer: Option<bool> = catch(|| self.0.parse(&[], 0)).ok();
-        let write_part = |rep: &PartReport| {
-            let tmp = part_path.with_extension("tmp");
-            if std::fs::write(&tmp, serde_json::to_vec(rep).unwrap()).is_ok() {
-                let _ = std::fs::rename(&tmp, part_path);
-            }
-        };
+        let mut viol_file = std::fs::OpenOptions::new().create(true).append(true).open(part_path.with_extension("viol")).ok();
+        let mut hash_file = std::fs::OpenOptions::new().create(true).append(true).open(part_path.with_extension("hashes")).ok();
+        let mut hash_buf: Vec<u8> = Vec::new();
+        let mut samples: Vec<Value> = Vec::new();
+        let p = unsafe { &*page };
         enumerate(&self.0, ctx.tier, &mut |c| {
             let mine = (global_idx + offset) % nshards == shard;
             global_idx += 1;
@@ -283,9 +278,15 @@ impl<S: MutSpec> Mut<S> {
             if idx < start {
                 return true;
             }
-            if idx % 64 == 0 && Instant::now() >= deadline {
-                rep.capped = true;
-                return false;
+            if idx % 64 == 0 {
+                if let Some(f) = hash_file.as_mut() {
+                    let _ = f.write_all(&hash_buf);
+                }
+                hash_buf.clear();
+                if Instant::now() >= deadline {
+                    p.capped.store(1, SeqCst);
+                    return false;
+                }
             }
             // journal: which case is about to run
             unsafe {
@@ -299,71 +300,94 @@ impl<S: MutSpec> Mut<S> {
                 (*page).case_index.store(idx, SeqCst);
             }
             let out = judge(&self.0, &c);
-            rep.executions += 1;
+            p.executions.fetch_add(1, SeqCst);
             match out {
                 Ok(ok) => {
-                    *rep.outcomes.entry(if ok { "ok".into() } else { "err".into() }).or_insert(0) += 1;
+                    if ok {
+                        p.ok.fetch_add(1, SeqCst);
+                    } else {
+                        p.err.fetch_add(1, SeqCst);
+                    }
                     // non-trivial (counted conservatively): a mutant on which the parser's answer differs from its
                     // answer on the empty input, i.e. it got past its first early return
                     let nontrivial = c.mutated && Some(ok) != empty_answer;
                     if nontrivial {
-                        rep.nontrivial += 1;
-                        rep.case_hashes.push(h64(&(&name, &c.input, c.arg)));
+                        p.nontrivial.fetch_add(1, SeqCst);
+                        hash_buf.extend_from_slice(&h64(&(&name, &c.input, c.arg)).to_le_bytes());
                     }
-                    if rep.samples.len() < 2 {
-                        rep.samples.push(json!({"desc": c.desc, "len": c.input.len(), "arg": c.arg, "parser_returned": if ok {"Ok"} else {"Err"}}));
+                    if samples.len() < 2 {
+                        samples.push(json!({"desc": c.desc, "len": c.input.len(), "arg": c.arg, "parser_returned": if ok {"Ok"} else {"Err"}}));
+                        if samples.len() == 2 {
+                            let _ = std::fs::write(part_path.with_extension("samples"), serde_json::to_vec(&samples).unwrap_or_default());
+                        }
                     }
                 }
                 Err(f) => {
-                    *rep.outcomes.entry(format!("fail:{}:{}", f.clause, f.class)).or_insert(0) += 1;
-                    rep.case_hashes.push(h64(&(&name, &c.input, c.arg)));
-                    let key = format!("{}\u{1}{}", f.clause, f.class);
-                    let e = rep.violations.entry(key).or_insert((0, Vec::new()));
-                    e.0 += 1;
-                    if e.1.len() < 3 {
-                        e.1.push((witness_of(&c), f.detail.clone()));
+                    hash_buf.extend_from_slice(&h64(&(&name, &c.input, c.arg)).to_le_bytes());
+                    if let Some(vf) = viol_file.as_mut() {
+                        let line = json!({"clause": f.clause, "class": f.class, "detail": f.detail, "witness": witness_of(&c)});
+                        let _ = writeln!(vf, "{}", line);
                     }
                 }
             }
-            unsafe { (*page).done.store(idx + 1, SeqCst) };
-            if rep.executions % 512 == 0 {
-                write_part(&rep);
-            }
+            p.done.store(idx + 1, SeqCst);
             true
         });
-        write_part(&rep);
+        if let Some(f) = hash_file.as_mut() {
+            let _ = f.write_all(&hash_buf);
+        }
     }
 
-    fn merge_part(&self, ctx: &mut Ctx, path: &std::path::Path) -> bool {
+    fn merge_part(&self, ctx: &mut Ctx, page: *mut SharedPage, path: &std::path::Path) {
+        use std::sync::atomic::Ordering::SeqCst;
         let name = self.0.name();
-        let Ok(bytes) = std::fs::read(path) else { return false };
-        let Ok(rep) = serde_json::from_slice::<PartReport>(&bytes) else { return false };
+        let p = unsafe { &*page };
         let st = ctx.stats(&name);
-        st.executions += rep.executions;
-        st.nontrivial += rep.nontrivial;
-        for (k, v) in rep.outcomes {
-            *st.outcomes.entry(k).or_insert(0) += v;
-        }
-        if rep.capped {
+        st.executions += p.executions.swap(0, SeqCst);
+        st.nontrivial += p.nontrivial.swap(0, SeqCst);
+        *st.outcomes.entry("ok".into()).or_insert(0) += p.ok.swap(0, SeqCst);
+        *st.outcomes.entry("err".into()).or_insert(0) += p.err.swap(0, SeqCst);
+        if p.capped.swap(0, SeqCst) != 0 {
             st.cap_hit = true;
         }
-        for h in rep.case_hashes {
-            ctx.add_case_hash_raw(h);
+        if let Ok(bytes) = std::fs::read(path.with_extension("hashes")) {
+            for c in bytes.chunks_exact(8) {
+                ctx.add_case_hash_raw(u64::from_le_bytes(c.try_into().unwrap()));
+            }
         }
-        for s in rep.samples {
-            ctx.add_sample(&name, &|| s.clone());
+        if let Ok(bytes) = std::fs::read(path.with_extension("samples")) {
+            if let Ok(v) = serde_json::from_slice::<Vec<Value>>(&bytes) {
+                for s in v {
+                    ctx.add_sample(&name, &|| s.clone());
+                }
+            }
         }
-        for (key, (count, wits)) in rep.violations {
-            let (clause, class) = key.split_once('\u{1}').unwrap_or((&key, ""));
+        // group the violations by (clause, class)
+        let mut groups: BTreeMap<(String, String), (u64, Vec<(Value, String)>)> = BTreeMap::new();
+        if let Ok(text) = std::fs::read_to_string(path.with_extension("viol")) {
+            for line in text.lines() {
+                let Ok(v) = serde_json::from_str::<Value>(line) else { continue };
+                let clause = v["clause"].as_str().unwrap_or("").to_string();
+                let class = v["class"].as_str().unwrap_or("").to_string();
+                let e = groups.entry((clause, class)).or_insert((0, Vec::new()));
+                e.0 += 1;
+                if e.1.len() < 3 {
+                    e.1.push((v["witness"].clone(), v["detail"].as_str().unwrap_or("").to_string()));
+                }
+            }
+        }
+        for ((clause, class), (count, wits)) in groups {
+            *ctx.stats(&name).outcomes.entry(format!("fail:{clause}:{class}")).or_insert(0) += count;
             let mut left = count;
             for (i, (w, detail)) in wits.iter().enumerate() {
                 let n = if i + 1 == wits.len() { left } else { 1 };
                 left -= n;
-                ctx.violation_n(&name, &Fail { clause: clause.to_string(), class: class.to_string(), detail: detail.clone() }, w.clone(), n);
+                ctx.violation_n(&name, &Fail { clause: clause.clone(), class: class.clone(), detail: detail.clone() }, w.clone(), n);
             }
         }
-        let _ = std::fs::remove_file(path);
-        true
+        for ext in ["viol", "hashes", "samples"] {
+            let _ = std::fs::remove_file(path.with_extension(ext));
+        }
     }
 }
 
@@ -390,6 +414,11 @@ impl<S: MutSpec> Subject for Mut<S> {
                 (*page).case_index.store(u64::MAX, SeqCst);
                 (*page).done.store(start, SeqCst);
                 (*page).desc_len.store(0, SeqCst);
+                (*page).executions.store(0, SeqCst);
+                (*page).nontrivial.store(0, SeqCst);
+                (*page).ok.store(0, SeqCst);
+                (*page).err.store(0, SeqCst);
+                (*page).capped.store(0, SeqCst);
             }
             let pid = unsafe { libc::fork() };
             if pid < 0 {
@@ -404,8 +433,10 @@ impl<S: MutSpec> Subject for Mut<S> {
                     let core = libc::rlimit { rlim_cur: 0, rlim_max: 0 };
                     libc::setrlimit(libc::RLIMIT_CORE, &core);
                 }
-                self.child_run(ctx, page, start, &part_path);
-                unsafe { libc::_exit(0) };
+                // the child never returns into the caller's frames (its copy of Ctx must not be dropped: that would
+                // delete the shard's scratch directory), not even by unwinding
+                let r = std::panic::catch_unwind(std::panic::AssertUnwindSafe(|| self.child_run(ctx, page, start, &part_path)));
+                unsafe { libc::_exit(if r.is_ok() { 0 } else { 3 }) };
             }
             // supervisor
             let mut last_done = unsafe { (*page).done.load(SeqCst) };
@@ -429,12 +460,13 @@ impl<S: MutSpec> Subject for Mut<S> {
                 }
                 std::thread::sleep(Duration::from_millis(5));
             }
-            let merged = self.merge_part(ctx, &part_path);
+            self.merge_part(ctx, page, &part_path);
             let exited_ok = !timed_out && libc::WIFEXITED(status) && libc::WEXITSTATUS(status) == 0;
             if exited_ok {
-                if !merged {
-                    ctx.machinery_error(format!("{name}: child finished but left no report"));
-                }
+                break;
+            }
+            if !timed_out && libc::WIFEXITED(status) && libc::WEXITSTATUS(status) == 3 && unsafe { (*page).case_index.load(SeqCst) } == u64::MAX {
+                ctx.machinery_error(format!("{name}: the child panicked outside any case (seed construction?)"));
                 break;
             }
             // the child died or hung: which case?
